@@ -121,6 +121,49 @@ func fieldsN(s string, n int) []string {
 	return out
 }
 
+// adjustIndices applies CPython's ADJUST_INDICES to start and end, both counted in code points:
+// negative values are taken from the end, end is clamped to size, start is only lifted to 0.
+func adjustIndices(start, end, size int) (int, int) {
+	if end > size {
+		end = size
+	} else if end < 0 {
+		end += size
+		if end < 0 {
+			end = 0
+		}
+	}
+	if start < 0 {
+		start += size
+		if start < 0 {
+			start = 0
+		}
+	}
+	return start, end
+}
+
+// sliceByCodePoints returns s[start:end] for the optional integer arguments args[first] and
+// args[first+1], counted in code points. ok is false when start lies beyond end (no match possible).
+func sliceByCodePoints(s string, args Tuple, first int) (sub string, ok bool) {
+	if len(args) <= first {
+		return s, true
+	}
+	runes := []rune(s)
+	start, end := 0, len(runes)
+	if v, isInt := args[first].(Int); isInt {
+		start = int(v)
+	}
+	if len(args) > first+1 {
+		if v, isInt := args[first+1].(Int); isInt {
+			end = int(v)
+		}
+	}
+	start, end = adjustIndices(start, end, len(runes))
+	if start > end {
+		return "", false
+	}
+	return string(runes[start:end]), true
+}
+
 func init() {
 	StringType.Dict["endswith"] = MustNewMethod("endswith", func(self Object, args Tuple) (Object, error) {
 		selfStr := string(self.(String))
@@ -139,6 +182,10 @@ func init() {
 			}
 		} else {
 			return nil, ExceptionNewf(TypeError, "endswith() takes at least 1 argument (0 given)")
+		}
+		selfStr, ok := sliceByCodePoints(selfStr, args, 1)
+		if !ok {
+			return Bool(false), nil
 		}
 		for _, s := range suffix {
 			if strings.HasSuffix(selfStr, s) {
@@ -199,10 +246,9 @@ replaced.`)
 		} else {
 			return nil, ExceptionNewf(TypeError, "startswith() takes at least 1 argument (0 given)")
 		}
-		if len(args) > 1 {
-			if s, ok := args[1].(Int); ok {
-				selfStr = selfStr[s:]
-			}
+		selfStr, ok := sliceByCodePoints(selfStr, args, 1)
+		if !ok {
+			return Bool(false), nil
 		}
 
 		for _, s := range prefix {
@@ -636,14 +682,9 @@ func (s String) Count(args Tuple) (Object, error) {
 		end  = int(pyend.(Int))
 		size = s.len()
 	)
-	if beg > size {
-		beg = size
-	}
-	if end < 0 {
-		end = size
-	}
-	if end > size {
-		end = size
+	beg, end = adjustIndices(beg, end, size)
+	if beg > end {
+		return Int(0), nil
 	}
 
 	var (
@@ -670,18 +711,13 @@ func (s String) find(args Tuple) (Object, error) {
 		end  = int(pyend.(Int))
 		size = s.len()
 	)
-	if beg > size {
-		beg = size
-	}
-	if end < 0 {
-		end = size
-	}
-	if end > size {
-		end = size
+	beg, end = adjustIndices(beg, end, size)
+	if beg > end {
+		return Int(-1), nil
 	}
 
 	var (
-		off = s.slice(0, beg, s.len()).len()
+		off = beg
 		str = string(s.slice(beg, end, s.len()))
 		sub = string(pysub.(String))
 		idx = strings.Index(str, sub)
